@@ -101,6 +101,7 @@ func runC01(r *Run, rng *Rng, thorough bool) {
 	})
 	r.extra["conformant_cases"] = nValid
 	r.extra["nonconformant_cases"] = nInvalid
+	extValidate(r, rng, map[bool]int{false: 300, true: 6000}[thorough])
 }
 
 // wantVal: the value getter g must return on a conformant claim.
